@@ -72,23 +72,87 @@ func checkC10(c *Ctx) {
 	c.R.Check(uniq, "R-id-unique", "GenerateEventID", c.Pos(genID.Pos()), "the id embeds the result of an atomic add on the writer's counter", "GenerateEventID does not embed an atomically incremented counter: two events of one writer can share an id")
 
 	// ---- the POST handler: function with an invoke of requestHandler.handleRequest and a ResponseWriter parameter
-	var posts []*ssa.Function
+	// it may hand the dispatch itself to a helper (serveRequest(reqCtx, respCtx, w, …)): a function with a writer
+	// parameter whose dispatch call takes one of its own parameters as context
+	ctxArgOf := func(call ssa.CallInstruction) ssa.Value {
+		for _, a := range call.Common().Args {
+			if ir.TypeStr(a.Type()) == "context.Context" {
+				return a
+			}
+		}
+		return nil
+	}
+	helperDispatch := func(fn *ssa.Function) (disp *ssa.Call, ctxIdx int) {
+		ctxIdx = -1
+		if fn == nil || !c.P.IsLib(fn) || !hasWriterParam(fn) {
+			return nil, -1
+		}
+		ir.EachInstr(fn, func(_ *ssa.BasicBlock, _ int, in ssa.Instruction) {
+			call, ok := in.(*ssa.Call)
+			if !ok || !c.isDispatchCall(call) {
+				return
+			}
+			if p, ok := ctxArgOf(call).(*ssa.Parameter); ok {
+				for i, q := range fn.Params {
+					if q == p {
+						disp, ctxIdx = call, i
+					}
+				}
+			}
+		})
+		return
+	}
+	buildsSender := func(fn *ssa.Function) bool {
+		var w *ssa.Parameter
+		for _, p := range fn.Params {
+			if isResponseWriter(p.Type()) {
+				w = p
+			}
+		}
+		found := false
+		ir.EachInstr(fn, func(_ *ssa.BasicBlock, _ int, in ssa.Instruction) {
+			call, ok := in.(*ssa.Call)
+			if !ok {
+				return
+			}
+			sc := ir.StaticCallee(call)
+			if sc == nil || !c.P.IsLib(sc) || sc.Signature.Results().Len() != 1 || !types.Implements(sc.Signature.Results().At(0).Type(), senderIface) {
+				return
+			}
+			for _, a := range call.Call.Args {
+				if w != nil && ir.Unwrap(a) == ssa.Value(w) {
+					found = true
+				}
+			}
+		})
+		return found
+	}
+	var posts, direct []*ssa.Function
 	for _, fn := range c.P.LibFns {
 		if !hasWriterParam(fn) {
 			continue
 		}
-		found := false
+		found, viaHelper := false, false
 		ir.EachCall(fn, func(call ssa.CallInstruction) {
 			if c.isDispatchCall(call) {
 				found = true
 			}
+			if d, _ := helperDispatch(ir.StaticCallee(call)); d != nil {
+				viaHelper = true
+			}
 		})
 		if found {
+			direct = append(direct, fn)
+		}
+		if (found || viaHelper) && buildsSender(fn) {
 			posts = append(posts, fn)
 		}
 	}
+	if len(posts) == 0 && len(direct) == 1 {
+		posts = direct // no sender is built anywhere: reported below as the violation it is
+	}
 	if len(posts) != 1 {
-		c.R.Break("expected one HTTP function invoking requestHandler.handleRequest, found %d", len(posts))
+		c.R.Break("expected one HTTP function that builds the notification sender of a POST and dispatches the request (itself or through a helper), found %d", len(posts))
 		return
 	}
 	post := posts[0]
@@ -189,20 +253,21 @@ func checkC10(c *Ctx) {
 	nDisp := 0
 	ir.EachInstr(post, func(_ *ssa.BasicBlock, _ int, in ssa.Instruction) {
 		call, ok := in.(*ssa.Call)
-		if !ok || !c.isDispatchCall(call) {
+		if !ok {
+			return
+		}
+		var v ssa.Value
+		if c.isDispatchCall(call) {
+			v = ctxArgOf(call) // the context argument, wherever the receiver sits (interface or concrete dispatcher)
+		} else if d, idx := helperDispatch(ir.StaticCallee(call)); d != nil && idx < len(call.Call.Args) {
+			v = call.Call.Args[idx] // the context the helper dispatches with
+		} else {
 			return
 		}
 		nDisp++
 		construct := sprintf("%s: dispatch #%d", pn, nDisp)
 		// find the injector call on the ctx chain
 		var inj *ssa.Call
-		var v ssa.Value
-		for _, a := range call.Call.Args {
-			if ir.TypeStr(a.Type()) == "context.Context" {
-				v = a // the context argument, wherever the receiver sits (interface or concrete dispatcher)
-				break
-			}
-		}
 		for i := 0; i < 8 && v != nil; i++ {
 			switch x := v.(type) {
 			case *ssa.Call:
@@ -263,26 +328,69 @@ func checkC10(c *Ctx) {
 	})
 	c.R.Min("R-sender-in-ctx", 2)
 	resp := 0
-	ir.EachInstr(post, func(_ *ssa.BasicBlock, _ int, in ssa.Instruction) {
-		call, ok := in.(*ssa.Call)
-		if !ok {
-			return
+	// a call that writes the answer: the responder itself, or a helper with a writer parameter that calls it
+	var respondish func(call *ssa.Call, d int) bool
+	respondish = func(call *ssa.Call, d int) bool {
+		if isRespondCall(c, call) {
+			return true
 		}
-		if !isRespondCall(c, call) {
-			return
+		sc := ir.StaticCallee(call)
+		if d >= 2 || sc == nil || !c.P.IsLib(sc) || !hasWriterParam(sc) || !passesWriter(call) {
+			return false
 		}
-		resp++
-		dominated := false
-		inGo := false
-		ir.EachInstr(post, func(_ *ssa.BasicBlock, _ int, d ssa.Instruction) {
-			if dc, ok := d.(*ssa.Call); ok && c.isDispatchCall(dc) && flow.Dominates(dc, call) {
-				dominated = true
+		if dd, _ := helperDispatch(sc); dd != nil {
+			return false // the dispatching helper is judged on its own below
+		}
+		found := false
+		ir.EachInstr(sc, func(_ *ssa.BasicBlock, _ int, in ssa.Instruction) {
+			if ic, ok := in.(*ssa.Call); ok && respondish(ic, d+1) {
+				found = true
 			}
 		})
-		_ = inGo
-		c.R.Check(dominated, "R-response-last", sprintf("%s: respond #%d", pn, resp), c.Pos(call.Pos()), "the response is written after the dispatcher returned",
-			sprintf("%s writes a response that is not preceded by the dispatcher's return on every path", pn))
+		return found
+	}
+	scopes := []*ssa.Function{post}
+	ir.EachInstr(post, func(_ *ssa.BasicBlock, _ int, in ssa.Instruction) {
+		if call, ok := in.(*ssa.Call); ok {
+			if d, _ := helperDispatch(ir.StaticCallee(call)); d != nil {
+				dup := false
+				for _, sfn := range scopes {
+					if sfn == ir.StaticCallee(call) {
+						dup = true
+					}
+				}
+				if !dup {
+					scopes = append(scopes, ir.StaticCallee(call))
+				}
+			}
+		}
 	})
+	for _, scope := range scopes {
+		scope := scope
+		ir.EachInstr(scope, func(_ *ssa.BasicBlock, _ int, in ssa.Instruction) {
+			call, ok := in.(*ssa.Call)
+			if !ok || !respondish(call, 0) {
+				return
+			}
+			resp++
+			dominated := false
+			ir.EachInstr(scope, func(_ *ssa.BasicBlock, _ int, d ssa.Instruction) {
+				dc, ok := d.(*ssa.Call)
+				if !ok {
+					return
+				}
+				isDisp := c.isDispatchCall(dc)
+				if hd, _ := helperDispatch(ir.StaticCallee(dc)); hd != nil {
+					isDisp = true
+				}
+				if isDisp && flow.Dominates(dc, call) {
+					dominated = true
+				}
+			})
+			c.R.Check(dominated, "R-response-last", sprintf("%s: respond #%d", fname(scope), resp), c.Pos(call.Pos()), "the response is written after the dispatcher returned",
+				sprintf("%s writes a response that is not preceded by the dispatcher's return on every path", fname(scope)))
+		})
+	}
 	c.R.Min("R-response-last", 4)
 
 	c10Client(c)
